@@ -74,6 +74,8 @@ type Ctx struct {
 	mustMemo   map[*ssa.Function]map[string]bool
 	lenPres    map[[2]any]bool
 	nnMemo     map[ssa.Value]bool
+	aliases    map[*types.Var]string
+	role       *roleInfo
 }
 
 const lzPath = "github.com/ulikunitz/lz"
@@ -253,12 +255,12 @@ func (c *Ctx) global(pkg *ssa.Package, name string) *ssa.Global {
 
 // Parser describes one of the concrete parser implementations.
 type Parser struct {
-	T     *types.Named
-	Name  string
-	Parse *ssa.Function
-	Reset *ssa.Function
+	T      *types.Named
+	Name   string
+	Parse  *ssa.Function
+	Reset  *ssa.Function
 	Shrink *ssa.Function
-	Cfg   *types.Named // config type embedded in the parser
+	Cfg    *types.Named // config type embedded in the parser
 }
 
 // parsers discovers the concrete types of package lz that implement lz.Parser.
